@@ -100,6 +100,16 @@ def run(mol, spec, script):
     return text, list(order), list(_state['points'])
 
 
+def run_full(mol, spec, script):
+    """the user-visible text (with the CXSMILES block) of the same execution: replayed under the recorded script"""
+    install()
+    _state.update(armed=True, script=list(script), pos=0, points=[])
+    try:
+        return mol.__format__(spec)
+    finally:
+        _state['armed'] = False
+
+
 def explore(mol, spec='r', bound=None, limit=None):
     """yield (text, order, script) for every script within the deviation bound. Iterative deepening is not needed:
     scripts are generated so that each is visited exactly once."""
